@@ -20,6 +20,10 @@ RULE = ('Hypothesis: texts over Latin-1, BMP and astral characters x '
 RULE += (
          'Also: page names alike str / bytes methods read in loops '
          'over text / bytes elements. ')
+RULE += (
+         'Texts starting / ending with U+FEFF, U+FFFE, NUL, U+2028 '
+         'under every form x encoding; quoting forms of the str() '
+         'table. ')
 ASSUMPTIONS = [
     'only the insertion forms the statement names are asserted; other '
     'modifiers applied to bytes (upper, size, newline_to_br, %-formats) are '
